@@ -203,4 +203,177 @@ theorem parseAllURIHdrs_ucl (b : Buf) (o k flags : Nat) (hfit : b.size ≤ 65535
   have hS := parseAllURIHdrs_safe b o { hdrs := Array.replicate k {} } flags ho (srHlIn_new o k)
   exact fun p hp => ucl_srTpGet_hdrIn (hS.out.mem_get hfit _ p hp)
 
+/-! ### (1c) "no duplicate parameter" is "no two parameter NAMES equal up to letter case" -/
+
+theorem ucl_ofLower_cases (s : List UInt8) (t : Nat) (ht : uriParamOfLower s = t) :
+    (s = sTransport ∧ t = URIParamTransportF) ∨ (s = sLr ∧ t = URIParamLRF) ∨ (s = sMaddr ∧ t = URIParamMaddrF) ∨
+    (s = sUser ∧ t = URIParamUserF) ∨ (s = sMethod ∧ t = URIParamMethodF) ∨ (s = sTtl ∧ t = URIParamTTLF) ∨
+    t = URIParamOtherF := by
+  unfold uriParamOfLower at ht
+  by_cases h1 : s = sTransport
+  · rw [if_pos h1] at ht; exact Or.inl ⟨h1, ht.symm⟩
+  rw [if_neg h1] at ht
+  by_cases h2 : s = sLr
+  · rw [if_pos h2] at ht; exact Or.inr (Or.inl ⟨h2, ht.symm⟩)
+  rw [if_neg h2] at ht
+  by_cases h3 : s = sMaddr
+  · rw [if_pos h3] at ht; exact Or.inr (Or.inr (Or.inl ⟨h3, ht.symm⟩))
+  rw [if_neg h3] at ht
+  by_cases h4 : s = sUser
+  · rw [if_pos h4] at ht; exact Or.inr (Or.inr (Or.inr (Or.inl ⟨h4, ht.symm⟩)))
+  rw [if_neg h4] at ht
+  by_cases h5 : s = sMethod
+  · rw [if_pos h5] at ht; exact Or.inr (Or.inr (Or.inr (Or.inr (Or.inl ⟨h5, ht.symm⟩))))
+  rw [if_neg h5] at ht
+  by_cases h6 : s = sTtl
+  · rw [if_pos h6] at ht; exact Or.inr (Or.inr (Or.inr (Or.inr (Or.inr (Or.inl ⟨h6, ht.symm⟩)))))
+  rw [if_neg h6] at ht
+  exact Or.inr (Or.inr (Or.inr (Or.inr (Or.inr (Or.inr ht.symm)))))
+
+/-- two lower-cased names of the same type other than `other` are the same name -/
+theorem ucl_ofLower_inj {s s' : List UInt8} (h : uriParamOfLower s = uriParamOfLower s')
+    (hne : uriParamOfLower s ≠ URIParamOtherF) : s = s' := by
+  rcases ucl_ofLower_cases s _ rfl with ⟨a, ta⟩ | ⟨a, ta⟩ | ⟨a, ta⟩ | ⟨a, ta⟩ | ⟨a, ta⟩ | ⟨a, ta⟩ | ta <;>
+  rcases ucl_ofLower_cases s' _ rfl with ⟨a', ta'⟩ | ⟨a', ta'⟩ | ⟨a', ta'⟩ | ⟨a', ta'⟩ | ⟨a', ta'⟩ | ⟨a', ta'⟩ | ta' <;>
+  first
+    | exact a.trans a'.symm
+    | exact absurd ta hne
+    | (rw [ta, ta'] at h; exact absurd h (by decide))
+
+/-- for parameters classified by their names, "the same parameter" means "names equal up to letter case" -/
+theorem ucl_pmatch_iff {b : Buf} {p q : URIParam} (hp : UclCls b p) (hq : UclCls b q) :
+    PMatch b p b q ↔ FEq p.param.name b q.param.name b := by
+  obtain ⟨np, hnp, htp⟩ := hp
+  obtain ⟨nq, hnq, htq⟩ := hq
+  constructor
+  · rintro ⟨ht, ho⟩
+    by_cases hot : p.t = URIParamOtherF
+    · exact ho hot
+    · refine ⟨np, nq, hnp, hnq, ?_⟩
+      unfold CaseEq
+      rw [htp, htq, uriParamResolve_lower, uriParamResolve_lower] at ht
+      rw [htp, uriParamResolve_lower] at hot
+      exact ucl_ofLower_inj ht hot
+  · rintro ⟨x, y, hx, hy, hc⟩
+    rw [hnp] at hx; rw [hnq] at hy; cases hx; cases hy
+    refine ⟨?_, fun _ => ⟨np, nq, hnp, hnq, hc⟩⟩
+    rw [htp, htq, uriParamResolve_lower, uriParamResolve_lower]
+    unfold CaseEq at hc; rw [hc]
+
+/-- a list of byte strings without two members equal up to ASCII letter case -/
+def UclNoDupNames (l : List Buf) : Prop := l.Pairwise (fun a c => ¬ CaseEq a c)
+
+instance (a c : Buf) : Decidable (CaseEq a c) := inferInstanceAs (Decidable (lowerL a.toList = lowerL c.toList))
+instance (l : List Buf) : Decidable (UclNoDupNames l) :=
+  inferInstanceAs (Decidable (l.Pairwise (fun a c => ¬ CaseEq a c)))
+
+theorem ucl_srTpIn_name {b : Buf} {p : PTokParam} (h : SrTpIn b.size p) (hfit : b.size ≤ 65535) :
+    p.name.get? b = some (nameOf b p) := by
+  have := h.name
+  unfold PField.inside at this
+  exact field_get? b p.name.offs p.name.len this hfit
+
+theorem ucl_feq_names {b : Buf} {p q : PTokParam} (hp : p.name.get? b = some (nameOf b p))
+    (hq : q.name.get? b = some (nameOf b q)) : FEq p.name b q.name b ↔ CaseEq (nameOf b p) (nameOf b q) := by
+  constructor
+  · rintro ⟨x, y, hx, hy, hc⟩
+    rw [hp] at hx; rw [hq] at hy; cases hx; cases hy; exact hc
+  · intro hc; exact ⟨_, _, hp, hq, hc⟩
+
+/-- the list-level statement: for a parameter list whose elements are classified by their (readable) names,
+    `ParamsNoDup` (the side condition of the comparison laws) says exactly that no two names are equal up to case -/
+theorem ucl_paramsNoDup_iff {b : Buf} {l : List URIParam} (hc : ∀ p ∈ l, UclCls b p)
+    (hn : ∀ p ∈ l, p.param.name.get? b = some (nameOf b p.param)) :
+    ParamsNoDup b l ↔ UclNoDupNames (l.map (fun p => nameOf b p.param)) := by
+  unfold ParamsNoDup UclNoDupNames
+  rw [List.pairwise_map]
+  apply List.Pairwise.iff_of_mem
+  intro p q hp hq
+  rw [ucl_pmatch_iff (hc p hp) (hc q hq), ucl_feq_names (hn p hp) (hn q hq)]
+
+theorem ucl_hdrsNoDup_iff {b : Buf} {l : List PTokParam} (hn : ∀ p ∈ l, p.name.get? b = some (nameOf b p)) :
+    HdrsNoDup b l ↔ UclNoDupNames (l.map (nameOf b)) := by
+  unfold HdrsNoDup UclNoDupNames
+  rw [List.pairwise_map]
+  apply List.Pairwise.iff_of_mem
+  intro p q hp hq
+  rw [ucl_feq_names (hn p hp) (hn q hq)]
+
+/-! ### (2a) parameter / header STRINGS: the side conditions `ParamsWf` / `HdrsWf` from the text -/
+
+/-- the names (as byte strings of the text) of the parameters URIParamsEq / URICmp extract from a parameter string -/
+def uclParamNames (pb : Buf) : List Buf := (uriParamsParse pb 0).2.plist.map (fun p => nameOf pb p.param)
+
+/-- the names of the headers URIHdrsEq / URICmp extract from a header string -/
+def uclHdrNames (hb : Buf) : List Buf := (uriHdrsParse hb 0).2.hlist.map (nameOf hb)
+
+theorem ucl_mem_hlist {l : URIHdrsLst} {p : PTokParam} :
+    p ∈ l.hlist ↔ ∃ k, k < l.n ∧ k < l.hdrs.size ∧ l.hdrs[k]! = p := by
+  unfold URIHdrsLst.hlist URIHdrsLst.hNo
+  rw [List.mem_take_iff_getElem]
+  constructor
+  · rintro ⟨j, hj, rfl⟩
+    have hj' : j < l.hdrs.size := by
+      have := hj; simp only [Array.length_toList] at this; omega
+    refine ⟨j, ?_, hj', ?_⟩
+    · split at hj <;> omega
+    · rw [getElem!_pos l.hdrs j hj', Array.getElem_toList]
+  · rintro ⟨k, hk, hs, rfl⟩
+    refine ⟨k, ?_, ?_⟩
+    · simp only [Array.length_toList]; split <;> omega
+    · rw [getElem!_pos l.hdrs k hs, Array.getElem_toList]
+
+/-- what URIParamsEq's parse of a parameter string (any string within the size limit) guarantees: no panic, every
+    stored parameter readable with its name being `nameOf`, and classified by its name -/
+theorem ucl_paramsParse_facts (pb : Buf) (o : Nat) (hfit : pb.size ≤ 65535) (ho : o ≤ pb.size) :
+    (uriParamsParse pb o).2.pnc = false ∧
+    ∀ p ∈ (uriParamsParse pb o).2.plist,
+      ParamIn pb p ∧ UclCls pb p ∧ p.param.name.get? pb = some (nameOf pb p.param) := by
+  have hS := parseAllURIParams_safe pb o { params := Array.replicate 100 {} } (POptTokURIParamF ||| POptInputEndF) hfit ho
+    (srPlIn_new o 100)
+  have hI := parseAllURIParams_uclInv pb o { params := Array.replicate 100 {} } (POptTokURIParamF ||| POptInputEndF)
+    (uclPlInv_new pb 100)
+  refine ⟨hS.out.pnc, fun p hp => ?_⟩
+  have hp' : p ∈ (parseAllURIParams pb o { params := Array.replicate 100 {} }
+      (POptTokURIParamF ||| POptInputEndF)).2.2.2.plist := hp
+  refine ⟨ucl_srTpGet_paramIn (hS.out.mem_get hfit _ p hp'), hI.mem_cls p hp', ?_⟩
+  obtain ⟨k, _, hs, rfl⟩ := ucl_mem_plist.1 hp'
+  exact ucl_srTpIn_name (hS.out.arr k hs) hfit
+
+theorem ucl_hdrsParse_facts (hb : Buf) (o : Nat) (hfit : hb.size ≤ 65535) (ho : o ≤ hb.size) :
+    ∀ p ∈ (uriHdrsParse hb o).2.hlist, HdrIn hb p ∧ p.name.get? hb = some (nameOf hb p) := by
+  have hS := parseAllURIHdrs_safe hb o { hdrs := Array.replicate 100 {} } (POptTokURIHdrF ||| POptInputEndF) ho
+    (srHlIn_new o 100)
+  intro p hp
+  have hp' : p ∈ (parseAllURIHdrs hb o { hdrs := Array.replicate 100 {} }
+      (POptTokURIHdrF ||| POptInputEndF)).2.2.2.hlist := hp
+  refine ⟨ucl_srTpGet_hdrIn (hS.out.mem_get hfit _ p hp'), ?_⟩
+  obtain ⟨k, _, hs, rfl⟩ := ucl_mem_hlist.1 hp'
+  exact ucl_srTpIn_name (hS.out.arr k hs) hfit
+
+/-- for the parsed list of a parameter string, the side condition `ParamsNoDup` of the laws IS freedom from duplicate
+    names in the text -/
+theorem ucl_paramsNoDup_text (pb : Buf) (hfit : pb.size ≤ 65535) :
+    ParamsNoDup pb (uriParamsParse pb 0).2.plist ↔ UclNoDupNames (uclParamNames pb) := by
+  have h := (ucl_paramsParse_facts pb 0 hfit (Nat.zero_le _)).2
+  exact ucl_paramsNoDup_iff (fun p hp => (h p hp).2.1) (fun p hp => (h p hp).2.2)
+
+theorem ucl_hdrsNoDup_text (hb : Buf) (hfit : hb.size ≤ 65535) :
+    HdrsNoDup hb (uriHdrsParse hb 0).2.hlist ↔ UclNoDupNames (uclHdrNames hb) := by
+  have h := ucl_hdrsParse_facts hb 0 hfit (Nat.zero_le _)
+  exact ucl_hdrsNoDup_iff (fun p hp => (h p hp).2)
+
+/-- **every parameter string without duplicate names is well formed for comparison** (`ParamsWf`, the hypothesis of
+    the symmetry / reflexivity laws): the no-panic and inside-the-string parts hold for EVERY string within the limit -/
+theorem ucl_paramsWf (pb : Buf) (hfit : pb.size ≤ 65535)
+    (hnd : errOkOrEOH (uriParamsParse pb 0).1 = true → UclNoDupNames (uclParamNames pb)) : ParamsWf pb 0 := by
+  have h := ucl_paramsParse_facts pb 0 hfit (Nat.zero_le _)
+  exact ⟨h.1, fun _ p hp => (h.2 p hp).1, fun hok => (ucl_paramsNoDup_text pb hfit).2 (hnd hok)⟩
+
+/-- **every header string without duplicate names is well formed for comparison** (`HdrsWf`) -/
+theorem ucl_hdrsWf (hb : Buf) (hfit : hb.size ≤ 65535)
+    (hnd : errOkOrEOH (uriHdrsParse hb 0).1 = true → UclNoDupNames (uclHdrNames hb)) : HdrsWf hb 0 := by
+  have h := ucl_hdrsParse_facts hb 0 hfit (Nat.zero_le _)
+  exact ⟨fun _ p hp => (h p hp).1, fun hok => (ucl_hdrsNoDup_text hb hfit).2 (hnd hok)⟩
+
 end Sipsp
